@@ -558,6 +558,8 @@ def registry(ops=(("append", "N1"), ("append", "N2"))):
     if kind == "append":
       c.call_function(SF(node=driver(src, "do_append"), closure={"record": SI(record)}, qualname="scenario.do_append", globs={}),
                       [SP(robj), SK(sc.strings.code(arg), arg)], {})
+    elif kind == "name_for":
+      c.call_function(SF(fn=ev.SignalSource.name_for_signal, self_val=SP(robj), defcls=ev.SignalSource), [SK(arg, arg)], {})
     else:
       eobj = PyObj(ev.Event, {}, "event%d" % t)
       init = ev.Event.__dict__["__init__"]
